@@ -132,6 +132,12 @@ Janet vo_next_stub(Janet ds, Janet key, int is_interpreter) { ACC_COMMON(ACC_NEX
 static void vo_setup_word(uint32_t word) {
     for (int i = 0; i < VO_NCODE; i++) vo_code[i] = 0x80 | JOP_NOOP;
     vo_code[VO_PC0] = word;
+#ifdef VO_TWO_STEP
+    /* two-instruction variant: a NOOP runs first, so the interpreter's pc has moved away from the frame's pc when the instruction
+     * under proof starts - "the frame is committed before a call that may raise" is then a real obligation (errors are attributed
+     * to the line of the committed pc) */
+    vo_code[VO_PC0 - 1] = JOP_NOOP;
+#endif
     vo_def.bytecode = vo_code;
     vo_def.bytecode_length = VO_NCODE;
     vo_def.slotcount = VO_SLOTS;
@@ -154,6 +160,9 @@ static void vo_setup_word(uint32_t word) {
     JanetStackFrame *fr = &vo_mem.fr;
     fr->func = vo_func;
     fr->pc = vo_code + VO_PC0;
+#ifdef VO_TWO_STEP
+    fr->pc = vo_code + VO_PC0 - 1;
+#endif
     fr->env = (JanetFuncEnv *)0;
     fr->prevframe = 0;
     fr->flags = JANET_STACKFRAME_ENTRANCE;
